@@ -1,7 +1,7 @@
 (* C15 property theorems: statements only, each closed by `exact`, pinned by `Check`, with its
    assumptions printed.  Definitions: Model_C15.v (transliterated from the Rust), lemmas: Proofs_C15.v *)
 From Coq Require Import ZArith List Bool Lia.
-From C15 Require Import Model_C15 Proofs_C15.
+From C15 Require Import Model_C15 Proofs_C15 Invariant_C15.
 Import ListNotations.
 Local Open Scope Z_scope.
 
@@ -152,6 +152,69 @@ Proof. exact ta_get_no_panic. Qed.
 Check get_never_out_of_buffer : forall t x data, wf_tarr t -> zlen data < 2 ^ 64 ->
   ta_get_elem t x data <> None.
 Print Assumptions get_never_out_of_buffer.
+
+(* ---- histories ----------------------------------------------------------------------------- *)
+
+(* the invariant: after ANY sequence of operations (buffer creation / resize / transfer / slice / detach, view
+   creation, element and DataView access, fill / copyWithin / set / subarray / slice / with, with resizes and
+   detaches hidden in argument conversions), under either conversion table, every view has well-formed geometry
+   and every byte list is at most 2^53 long *)
+Theorem history_invariant : forall c ops, wf_state (final_state c init_state ops).
+Proof. intros c ops. apply history_wf. exact wf_init. Qed.
+Check history_invariant : forall c ops, wf_state (final_state c init_state ops).
+Print Assumptions history_invariant.
+
+Theorem step_preserves_invariant : forall c s o, wf_state s -> wf_state (fst (step c s o)).
+Proof. exact step_wf. Qed.
+Check step_preserves_invariant : forall c s o, wf_state s -> wf_state (fst (step c s o)).
+Print Assumptions step_preserves_invariant.
+
+(* so, in the state reached by any history, an index accepted for a typed array addresses bytes inside the current
+   byte list of its buffer, the read succeeds and the write succeeds without changing the length *)
+Theorem history_access_in_bounds : forall c ops v t d x j,
+  get_view (final_state c init_state ops) v = Some (VTA t) ->
+  buf_data (final_state c init_state ops) (t_buf t) = Some d ->
+  validate_index t x (zlen d) = Some j ->
+  0 <= j < ta_length t (zlen d) /\
+  t_off t + (j + 1) * esize (t_kind t) <= zlen d /\
+  ta_get_elem t x d <> None /\
+  forall bits, exists d', ta_set_elem t x bits d = Some d' /\ length d' = length d.
+Proof. intros c ops v t d x j. apply reachable_access_in_bounds, history_invariant. Qed.
+Check history_access_in_bounds : forall c ops v t d x j,
+  get_view (final_state c init_state ops) v = Some (VTA t) ->
+  buf_data (final_state c init_state ops) (t_buf t) = Some d ->
+  validate_index t x (zlen d) = Some j ->
+  0 <= j < ta_length t (zlen d) /\
+  t_off t + (j + 1) * esize (t_kind t) <= zlen d /\
+  ta_get_elem t x d <> None /\
+  forall bits, exists d', ta_set_elem t x bits d = Some d' /\ length d' = length d.
+Print Assumptions history_access_in_bounds.
+
+Theorem history_dv_access_in_bounds : forall c ops v dv d gi size bi,
+  get_view (final_state c init_state ops) v = Some (VDV dv) ->
+  buf_data (final_state c init_state ops) (v_buf dv) = Some d ->
+  0 <= gi <= MAX_SAFE -> 0 < size <= 8 ->
+  dv_check dv gi size (zlen d) = Ok bi ->
+  bi = v_off dv + gi /\ v_off dv <= bi /\ bi + size <= zlen d.
+Proof. intros c ops v dv d gi size bi. apply reachable_dv_access_in_bounds, history_invariant. Qed.
+Check history_dv_access_in_bounds : forall c ops v dv d gi size bi,
+  get_view (final_state c init_state ops) v = Some (VDV dv) ->
+  buf_data (final_state c init_state ops) (v_buf dv) = Some d ->
+  0 <= gi <= MAX_SAFE -> 0 < size <= 8 ->
+  dv_check dv gi size (zlen d) = Ok bi ->
+  bi = v_off dv + gi /\ v_off dv <= bi /\ bi + size <= zlen d.
+Print Assumptions history_dv_access_in_bounds.
+
+(* element get / set after any history (the set possibly resizing or detaching the buffer from inside the value's
+   valueOf) never reaches a state in which the Rust code would index outside the byte list *)
+Theorem history_element_access_never_panics : forall c ops v i x m,
+  snd (step c (final_state c init_state ops) (Get v i)) <> OPanic /\
+  snd (step c (final_state c init_state ops) (SetE v i x m)) <> OPanic.
+Proof. intros. split; [apply get_never_panics | apply set_never_panics]; apply history_invariant. Qed.
+Check history_element_access_never_panics : forall c ops v i x m,
+  snd (step c (final_state c init_state ops) (Get v i)) <> OPanic /\
+  snd (step c (final_state c init_state ops) (SetE v i x m)) <> OPanic.
+Print Assumptions history_element_access_never_panics.
 
 (* ---- byte model ---------------------------------------------------------------------------- *)
 
